@@ -111,6 +111,7 @@ from static_frame.core.util import IndexConstructors
 from static_frame.core.util import IndexInitializer
 from static_frame.core.util import IndexSpecifier
 from static_frame.core.util import INT_TYPES
+from static_frame.core.util import immutable_new
 from static_frame.core.util import is_callable_or_mapping
 from static_frame.core.util import is_dtype_specifier
 from static_frame.core.util import is_mapping
@@ -307,8 +308,7 @@ class Frame(ContainerOperand):
 
         #-----------------------------------------------------------------------
         if col_count > 1:
-            array = np.tile(array.reshape((row_count, 1)), (1, col_count))
-            array.flags.writeable = False
+            array = immutable_new(np.tile(array.reshape((row_count, 1)), (1, col_count)))
 
         return cls(TypeBlocks.from_blocks(array),
                 index=index_final,
@@ -6278,9 +6278,7 @@ class Frame(ContainerOperand):
         '''
         Return a NumPy array of unqiue values. If the axis argument is provied, uniqueness is determined by columns or row.
         '''
-        array = ufunc_unique(self.values, axis=axis)
-        array.flags.writeable = False
-        return array
+        return immutable_new(ufunc_unique(self.values, axis=axis))
 
     #---------------------------------------------------------------------------
     # exporters
